@@ -1015,6 +1015,33 @@ func configFieldOwnership(ctx *Ctx, r *Result, rule string) bool {
 	for _, f := range v.Ints {
 		allowed[funcName(f)] = true
 	}
+	// helpers of the validation path: module functions reachable from the
+	// builder, all of whose callers are themselves on the validation path (a
+	// per-element helper split out of a validator's loop, say)
+	if v.Builder != nil {
+		we := ctx.WE()
+		reach := we.Reach(v.Builder)
+		changed := true
+		for changed {
+			changed = false
+			for _, f := range reach {
+				name := funcName(f)
+				if allowed[name] || len(we.callers[f]) == 0 {
+					continue
+				}
+				all := true
+				for _, cs := range we.callers[f] {
+					if !allowed[funcName(cs.Caller)] {
+						all = false
+					}
+				}
+				if all {
+					allowed[name] = true
+					changed = true
+				}
+			}
+		}
+	}
 	w := ctx.P.fieldWriters(pkgRoot, "internalConfig")
 	ok := true
 	for _, f := range sortedKeys(w) {
